@@ -213,14 +213,22 @@ class Impl:
         self.foreign = getattr(self, "foreign", {})
         return self.foreign.setdefault(container_id, 900000 + len(self.foreign))
 
+    def gid_of(self, op):
+        """global number of an operator of the scenario; an operator object the scenario never created gets a number no operator of the model has"""
+        k = self.gid.get(id(op))
+        if k is None:
+            self.foreign_ops = getattr(self, "foreign_ops", {})
+            k = self.foreign_ops.setdefault(id(op), 800000 + len(self.foreign_ops))
+        return k
+
     def world(self):
         pools = []
         for pool in self.ex.pools:
             A = [[self.cid_of(c.container_id), c.assignment.cpu, self.qv(c.assignment.ram), self.qv(c._current_memory),
-                  int(c._can_suspend), c._current_op_idx, c._ticks_elapsed, [self.gid[id(o)] for o in c.operators]]
+                  int(c._can_suspend), c._current_op_idx, c._ticks_elapsed, [self.gid_of(o) for o in c.operators]]
                  for c in pool.active_containers]
             S = [[self.cid_of(c.container_id), c.assignment.cpu, self.qv(c.assignment.ram), c._suspend_ticks_left, c._current_op_idx,
-                  [self.gid[id(o)] for o in c.operators]] for c in pool.suspending_containers]
+                  [self.gid_of(o) for o in c.operators]] for c in pool.suspending_containers]
             D = [self.cid_of(c.container_id) for c in pool.suspended_containers]
             pools.append({"ac": pool.avail_cpu_pool, "ar": self.qv(pool.avail_ram_pool), "cons": self.qv(pool.consumed_ram_gb),
                           "capc": pool.max_cpu_pool, "capr": self.qv(pool.max_ram_pool), "A": A, "S": S, "D": D,
@@ -231,7 +239,7 @@ class Impl:
 
     def results(self, res):
         return [[self.cid_of(x.container_id), int(not x.failed()), x.pool_id, x.cpu, self.qv(x.ram), x.priority.value,
-                 [self.gid[id(o)] for o in x.ops]] for x in res]
+                 [self.gid_of(o) for o in x.ops]] for x in res]
 
     def step(self, st):
         from eudoxia.executor.assignment import Assignment, Suspend
